@@ -116,7 +116,7 @@ class Tensor:
     # -- construction ------------------------------------------------------------------------------
     @staticmethod
     def fresh(name, shape, sort=None):
-        sort = sort or z3.RealSort()
+        sort = z3.RealSort() if sort is None else sort
         f = z3.Function(engine().fresh_name(name), *([z3.IntSort()] * len(shape)), sort) if shape else None
         if not shape:
             return Sym(fresh(name, sort))
